@@ -114,6 +114,16 @@ def run_step(step, heap):
         if a.get("aligned"):
             x.check_chargemaps_aligned()
         return 1
+    if op == "reparam":
+        # the re-parametrisation round trip optimisers do with block arrays:
+        # read the parameters, transform them linearly, write them into a copy
+        y = x.copy()
+        y.set_params({k: b * a["f"] for k, b in x.get_params().items()})
+        return y
+    if op == "align_inplace":
+        # the documented module-level worker behind align_axes, in place
+        fn = sr.abelian_core.drop_misaligned_sectors
+        return tuple(fn(x, vals[1], tuple(a["axes"][0]), tuple(a["axes"][1]), inplace=True))
     if op == "get_sparsity":
         return x.get_sparsity()
     if op == "filled_copy":
@@ -652,6 +662,9 @@ def g_new(ctx, heap):
         return [{"op": "new", "in": [], "out": [ctx.fresh()], "a": {"spec": spec}}]
     spec = ctx.new_spec()
     r = ctx.rng.random()
+    if ctx.rng.random() < 0.015 and getattr(ctx, "nonfinite", False):
+        spec["dist"] = "nan"   # one non-finite entry: legal data, LAPACK may refuse it
+        return [{"op": "new", "in": [], "out": [ctx.fresh()], "a": {"spec": spec}}]
     if r < 0.4 and getattr(ctx, "constructors", True):
         spec["via"] = ctx.rng.choice(["random", "from_fill_fn", "from_blocks", "from_dense"])
     return [{"op": "new", "in": [], "out": [ctx.fresh()], "a": {"spec": spec}}]
@@ -734,6 +747,30 @@ def g_factors(ctx, heap):
             a["absorb"] = rng.choice([-1, 0, 1, None])
             outs = [ctx.fresh(), ctx.fresh(), ctx.fresh()]
     steps.append({"op": "factors", "in": [n], "out": outs, "a": a})
+    return steps
+
+
+def g_reparam(ctx, heap):
+    n = _pick(ctx, heap, "AF", pred=lambda v: v.num_blocks > 0)
+    if n is None:
+        return None
+    return [{"op": "reparam", "in": [n], "out": [ctx.fresh()],
+             "a": {"f": ctx.rng.choice([2.0, -1.0, 0.5])}}]
+
+
+def g_align_inplace(ctx, heap):
+    """align two *copies* in place (both arguments are targets)."""
+    pr = _pair(ctx, heap, min_axes=1)
+    if pr is None:
+        return None
+    steps, na, nb, ax_a, ax_b = pr
+    if not ax_a or na == nb:
+        return None
+    ca, cb = ctx.fresh(), ctx.fresh()
+    steps.append({"op": "copy", "in": [na], "out": [ca], "a": {}})
+    steps.append({"op": "copy", "in": [nb], "out": [cb], "a": {}})
+    steps.append({"op": "align_inplace", "in": [ca, cb], "out": [ca, cb],
+                  "a": {"axes": [ax_a, ax_b]}})
     return steps
 
 
@@ -1627,6 +1664,8 @@ GENERATORS = {
     "reassemble": (g_reassemble, 1),
     "sparsity": (g_sparsity, 1),
     "index_ops": (g_index_ops, 1),
+    "reparam": (g_reparam, 1),
+    "align_inplace": (g_align_inplace, 1),
     "factors": (g_factors, 0),
     "transpose": (g_transpose, 5),
     "conj": (g_conj, 3),
